@@ -25,8 +25,9 @@ EXTENDS Integers, Sequences, FiniteSets, TLC, VerifEmit
 CONSTANTS
     ServerLabels,    \* versions offered to SetProtocolVersion (keys of ServerChars; "" opts out)
     UseExtra,        \* BOOLEAN: also offer ExtraClientLabels (non-ASCII digits/spaces, > int64 components)
-    AtoiSaturates,   \* TRUE: compare components the way strconv.Atoi leaves them (saturated at MaxInt64,
-                     \*       error ignored) -- the code as written; FALSE: exact comparison (intended design)
+    AtoiSaturates,   \* FALSE: components compared exactly (the code since /repo 6598544, compareDecimal);
+                     \* TRUE:  compared the way strconv.Atoi leaves them (saturated at MaxInt64, error
+                     \*        dropped) -- the code before that fix; kept for MC_asis.cfg, which violates C10
     Routes,          \* routes offered: subset of {"pipe", "http_unary", "http_init"}
     MaxSets,         \* bound on SetProtocolVersion calls per behaviour
     Mode, Depth
@@ -147,8 +148,9 @@ NumLess(x, y) ==
 
 MaxInt64 == <<"9","2","2","3","3","7","2","0","3","6","8","5","4","7","7","5","8","0","7">>
 
-\* strconv.Atoi with the error dropped (parseSemver: `major, _ = strconv.Atoi(m[1])`):
-\* out-of-range input yields the largest int
+\* pre-fix only: strconv.Atoi with the error dropped (parseSemver: `major, _ = strconv.Atoi(m[1])`),
+\* out-of-range input yields the largest int.  With AtoiSaturates = FALSE this is the identity:
+\* semverFields keeps the decimal strings and compareDecimal compares them by length, then text.
 Atoi(d) == IF AtoiSaturates /\ NumLess(MaxInt64, d) THEN MaxInt64 ELSE d
 
 --------------------------------------------------------------------------
